@@ -7,6 +7,7 @@ window; an in-order delivery contributes the number of sequence numbers strictly
 L and s; late or duplicate deliveries contribute nothing and do not move L.
 -/
 import LA.Proofs.ReasmOrder
+import LA.Proofs.StateFacts
 
 namespace LA.Reasm
 
@@ -200,3 +201,9 @@ example : (run (init 1 3600000000000)
   decide
 
 end LA.Reasm
+
+/-! ### the code keeps nothing between calls that the model does not have -/
+
+/-- Outside `init`, no function of the root package writes a package-level variable, takes the address of one or calls a
+sync/atomic method on one (regenerated list, see LA.Proofs.StateFacts): all state is in the object the model is given. -/
+theorem C03_state_is_in_the_object : LA.StateFacts.ofPkg "" = [] := by decide
